@@ -168,7 +168,7 @@ let run_case (line : string) : string =
                  (* Close under the old configuration, then a new server with another configuration on the same storage *)
                  let (s', r) = gstep !cfg !pol env !st GRestart in
                  cfg := cfg_of c; pol := pol_of c;
-                 st := s';
+                 st := reopen !cfg s';
                  outs := json_resp r :: !outs
              | List (Atom "group" :: xs) ->
                  (* several requests answered as one step (used for requests whose body delivery is
